@@ -51,8 +51,9 @@ ANY_VALUES = {"int": 12, "str": "plain", "bytes": b"\x00\xffraw", "big": 2 ** 70
               "nested": {"a": [1, {"b": None}]}, "ustr": "caf\u00e9 \u2603", "inf": float("inf"), "complex": 1 + 2j,
               "float": -0.5, "none": None}
 # map keys that are not XML names (measured per key kind x format x container on the unchanged tree: JSON, BSON, pickle
-# and YAML carry all of them -- YAML sorts the keys --, XML refuses all but the last four and the destination stays as it was)
-DICT_KEYS = {"space": "max connections", "digit": "1abc", "gt": "a>b", "empty": "", "tab": "a\tb", "colon": "x:y", "dash": "-lead",
+# and YAML carry all of them -- YAML sorts the keys --, XML refuses all but the last four and the destination stays as it
+# was; keys containing '>' used to save and load back unequal: F58, repaired, now refused like the others)
+DICT_KEYS = {"space": "max connections", "digit": "1abc", "gt": "a>b", "gt_end": "a>", "gt2": "x>y>z", "empty": "", "tab": "a\tb", "colon": "x:y", "dash": "-lead",
              "lt": "a<b", "amp": "a&b", "quote": 'a"b', "slash": "a/b", "nl": "a\nb", "lead": " a", "num": "123", "eq": "a=b",
              "uni": "caf\u00e9", "dot": "a.b", "xmlpfx": "xmlfoo", "uscore": "a_b"}
 _XML_NAME_KEYS = {"uni", "dot", "xmlpfx", "uscore"}
@@ -68,7 +69,7 @@ for _k in ("big", "bytearray", "complex", "set", "frozenset"):
 for _k in _TUPLES | {"intkeys", "nul"}:
     OUTSIDE[_k] |= {"xml"}
 for _k in ANY_VALUES:
-    if _k.startswith("key_") and _k[4:] not in _XML_NAME_KEYS and _k != "key_gt":
+    if _k.startswith("key_") and _k[4:] not in _XML_NAME_KEYS:
         OUTSIDE[_k] |= {"xml"}
 # the one normalisation a format applies on the way back: JSON and BSON have no tuple, a tuple loads as a list
 TUPLE_AS_LIST = {"json", "bson"}
@@ -76,10 +77,7 @@ TUPLE_AS_LIST = {"json", "bson"}
 # under JSON/BSON come back with string keys (XML refuses them, except a None key, which it drops).  C02/C04 speak
 # of string-keyed maps; ruled "observed, not counted" (reg_C19): kept out of the generated domain.  YAML and
 # pickle round-trip int keys and keep them.
-NOT_REPRESENTABLE = {("json", "intkeys"), ("bson", "intkeys"),
-                     # reported, no ruling yet: under XML the key "a>b" SAVES (no escaping of '>' in a tag name) and loads
-                     # back as {'a': 'b type="str">v1'} -- kept out of the generated domain until ruled on
-                     ("xml", "key_gt")}
+NOT_REPRESENTABLE = {("json", "intkeys"), ("bson", "intkeys")}
 UNTYPED = ("any", "ulist", "udict")
 SECRET_LENGTHS = [0, 1, 15, 16, 17, 31, 32, 33, 48]
 
@@ -155,14 +153,14 @@ for _n, (_m, _v) in list(TYPED.items()):
 # XML normalises line ends, '\r\n' and '\r' are read back as '\n'.  Everything else above round-trips exactly in all
 # five formats.  (Also measured, format-independent, not generated: a typed ListField / DictField that was never set
 # holds None and loads back as [] / {}.)
-TYPED_NOT_REPRESENTABLE = {("xml", "str_cr"), ("xml", "str_list_cr"), ("xml", "sdict_key_gt")}
+TYPED_NOT_REPRESENTABLE = {("xml", "str_cr"), ("xml", "str_list_cr")}
 # typed kinds a format's dumps refuses (the save must fail and leave the destination alone)
 TYPED_OUTSIDE = {}
 for _n, _k in DICT_KEYS.items():
     TYPED["sdict_key_" + _n] = ("sdict", {_k: "v1", "b": "v2"})
     PLAIN_VALUES["sdict_key_" + _n] = TYPED["sdict_key_" + _n][1]
     PLAIN_FIELD["sdict_key_" + _n] = "sdict"
-    TYPED_OUTSIDE["sdict_key_" + _n] = set() if _n in _XML_NAME_KEYS or _n == "gt" else {"xml"}
+    TYPED_OUTSIDE["sdict_key_" + _n] = set() if _n in _XML_NAME_KEYS else {"xml"}
 SAFE_KIND = {"str": "str_nl", "slist": "str_list", "sdict": "str_dict"}       # a representable kind of the same field type
 
 
